@@ -86,6 +86,14 @@ def cases(draw, tier="quick", fmt=None):
         pre = S.txt(PRINTABLE, min_size=0 if fmt == "tsv" else 0, max_size=4)
         uri = st.one_of(S.txt(PRINTABLE, max_size=6), st.sampled_from(["http://purl.obolibrary.org/obo/GO_", "https://example.org/ns#", "http://x/a\\b/"]))
         case["records"] = draw(_records(prefix_strat=pre, uri_strat=uri, pattern_strat=st.one_of(st.sampled_from(PATTERNS), S.txt(PRINTABLE, min_size=1, max_size=5)), min_records=1 if fmt == "shacl" else 0))
+    if fmt != "epm" and draw(st.sampled_from([False] * 20 + [True] + [False] * (39 if tier == "quick" else 9))):  # (Hypothesis over-samples the ends of a range)
+        # a converter beyond typical chunk sizes (built without extra draws): writers that batch their output must still
+        # produce a readable file
+        n = draw(st.sampled_from([1001, 1024, 1200]))
+        big = [{"prefix": f"p{i}", "uri_prefix": f"http://big/{i}/", "prefix_synonyms": [f"s{i}"] if i % 2 else [], "uri_prefix_synonyms": [], "pattern": "^\\d+$" if i % 7 == 0 else None} for i in range(n)]
+        case["records"] = big + [r for r in case["records"] if not r["prefix"].startswith(("p", "s")) and not r["uri_prefix"].startswith("http://big/")
+                                 and not any(x.startswith(("p", "s")) for x in r["prefix_synonyms"]) and not any(x.startswith("http://big/") for x in r["uri_prefix_synonyms"])][:2]
+        case["build"] = "at-once"
     return case
 
 
@@ -100,6 +108,8 @@ def _classify(case, stats):
     elif any(ord(ch) > 127 for ch in text) and klass is None:
         klass = "non-ascii-content"
     stats.cls("format:" + case["format"])
+    if len(recs) > 1000:
+        stats.cls("converter-with-more-than-1000-records")
     if klass:
         stats.nontrivial({"format": case["format"], "include_synonyms": case["include_synonyms"], "expand": case["expand"], "records": recs}, klass)
 
@@ -109,7 +119,13 @@ def check(case, stats: Stats) -> None:
     fmt, recs = case["format"], case["records"]
     # the converter is reached through different histories (at once / grown by merges / chain): what is written must not
     # depend on how the records came to hold their synonyms
-    conv = mk_converter_via({"delimiter": ":", "records": recs}, case.get("build", "at-once"))
+    big = len(recs) > 1000
+    if big:
+        # the quadratic strict-mode scan over >1000 clash-free records would dominate the run: the same converter is obtained
+        # without it (the records are clash-free by construction), and the files are read back non-strictly
+        conv = Converter(mk_records(recs), strict=False)
+    else:
+        conv = mk_converter_via({"delimiter": ":", "records": recs}, case.get("build", "at-once"))
     inc = case["include_synonyms"]
     ext = {"epm": "json", "jsonld": "jsonld", "shacl": "ttl", "tsv": "tsv"}[fmt]
     path = _path(ext)
@@ -123,7 +139,7 @@ def check(case, stats: Stats) -> None:
                 raise Violation(f"EPM round trip: wrote {want!r}, read {got!r}")
         elif fmt == "jsonld":
             curies.write_jsonld_context(conv, arg, include_synonyms=inc, expand=case["expand"])
-            back = curies.load_jsonld_context(arg, strict=not inc)
+            back = curies.load_jsonld_context(arg, strict=not inc and not big)
             if inc:
                 if dict(back.prefix_map) != dict(conv.prefix_map):
                     raise Violation(f"JSON-LD(include_synonyms, expand={case['expand']}) round trip: prefix_map {dict(back.prefix_map)!r} != original {dict(conv.prefix_map)!r}")
@@ -132,7 +148,7 @@ def check(case, stats: Stats) -> None:
                     raise Violation(f"JSON-LD(expand={case['expand']}) round trip: {dict(back.prefix_map)!r} != bimap {dict(conv.bimap)!r}")
         elif fmt == "shacl":
             curies.write_shacl(conv, arg, include_synonyms=inc)
-            back = curies.load_shacl(arg, strict=not inc)
+            back = curies.load_shacl(arg, strict=not inc and not big)
             if inc:
                 if dict(back.prefix_map) != dict(conv.prefix_map):
                     raise Violation(f"SHACL(include_synonyms) round trip: prefix_map {dict(back.prefix_map)!r} != original {dict(conv.prefix_map)!r}")
@@ -154,7 +170,7 @@ def check(case, stats: Stats) -> None:
             pm = {r[0]: r[1] for r in rows[1:]}
             if pm != dict(conv.bimap) or len(rows) - 1 != len(conv.bimap):
                 raise Violation(f"TSV round trip: {pm!r} != bimap {dict(conv.bimap)!r}")
-            back = curies.load_prefix_map(pm)
+            back = curies.load_prefix_map(pm, strict=not big)
             if dict(back.bimap) != dict(conv.bimap):
                 raise Violation("TSV: reloaded prefix map has a different bimap")
     finally:
